@@ -62,6 +62,13 @@ func ZZC05_blobput_front() {
 	}
 	srv := zzreg.New("reg.example")
 	srv.MaxPutBody = zzInt("registry_put_limit", 0, 2)
+	srv.MinChunk = zzInt("registry_min_chunk", 0, 3)
+	for k := 0; k <= 3; k++ {
+		if srv.MinChunk == k {
+			srv.MinChunk = k
+			break
+		}
+	}
 	chunk := zzInt("chunk", 1, 3)
 	for k := 1; k <= 3; k++ {
 		if chunk == k {
